@@ -12,6 +12,14 @@ CLAIMED = {
    "Oracle: applied-prefix texts unchanged => exactly the new tail runs; otherwise HistoryChangedError, zero statements executed, stored revision unchanged, no panic.",
    "Statement texts are simple INSERTs so the scanner is not in question here (C08 covers it). The stored revision is compared on Applied/Total/PartialHashes/Error/ErrorStmt/Hash/Type; ExecutedAt/OperatorVersion are rewritten by design.",
    "4/C12"),
+ "C09": ("fault_enumeration",
+   "exhaustive fault-schedule enumeration + rapid PBT; invariants over the exec/write trace of a recording driver and revision store",
+   "Every directory shape within the tier's bound x ExecuteN(0|1) x every schedule of one or two faulty runs (failing exec call at each index and/or failing revision write at each index, "
+   "including the mark-started and deferred writes) is run against the real migrate.Executor, followed by clean runs until ErrNoPendingFiles. Checked after every run: nothing executes after the run's first fault; "
+   "executed statements are consecutive in directory order starting at the first statement the stored history does not record; no revision claims a statement that never succeeded; clean runs make the promised progress; "
+   "at the end every statement succeeded, repeats only for the statement whose own post-write failed (one per fired write fault), exactly once when only statements fail; all revisions complete without error.",
+   "Faults are transient (the retried statement succeeds). The revision store is an in-memory model that drops a failed write entirely (no torn rows); the database side of atomicity is C10/C13.",
+   "4/C09"),
 }
 PENDING_REASON = "check not built yet in this session (planned in DESIGN.md section 4; will be claimed once its quick check is green and sensitivity-tested)"
 
